@@ -379,6 +379,22 @@ func (ch c01) Run(c *core.Ctx) {
 		wg.Wait()
 		c.Count("concurrent_authentication_groups", 1)
 	}
+	// the same rejected credentials a second and a third time, more than a second later and with nothing else
+	// happening on that server in between: rejected the first time, rejected every time
+	if c.Batch == 2 && c.Begin(97000000) {
+		envR := mk(wire.ClearTextPassword(c01validator))
+		rng := core.NewRng(c.Seed, "C01again", c.Batch, 0)
+		k := ch.gen(rng)
+		k.Strategy, k.Kind, k.Password, k.Cont = "cleartext", "reject", "no:"+rng.Ident(9), "pipelined"
+		for n := 0; n < 3 && c.NViol() < 10; n++ {
+			if n > 0 {
+				time.Sleep(1150 * time.Millisecond) // detection power only
+			}
+			ch.runCase(c, envR, k, core.NewRng(c.Seed, "C01again", c.Batch, 1+n), probe)
+			c.Count("rejected_credentials_offered_again_later", 1)
+		}
+		envR.Stop()
+	}
 	// logins whose (accepting) validator is slow, and right behind them logins with a wrong password, on a
 	// server with every timeout this tree offers set short: whatever becomes of the slow ones, a wrong
 	// password is never accepted
